@@ -585,6 +585,17 @@ def field_values(p, texts):
 STEMS = ["vol", "pan", "gain", "mode", "tune", "cut", "res", "att", "dec", "sus", "rel", "lvl",
          "wet", "dry", "mix", "key", "osc2f", "p9v", "type", "shape", "b1t", "x", "yy", "Pz"]
 KIDS = ["part", "fx", "kit", "voice", "env", "lfo", "sub3", "q"]
+# long names (18..34 characters): with them an address alone takes 20..105 columns, so a saved line reaches the
+# 80 columns of the default print options right behind its address (the first array element / the only value
+# goes to a line of its own) or the address itself is longer than a line
+LONG_STEMS = ["amplitude_envelope_sustain_level", "filter_cutoff_frequency_tracking", "oscillator_two_fine_detune",
+              "stereo_pan_randomness", "velocity_sensing_function", "portamento_time_stretch_updown", "resonance_bandwidth_scale",
+              "harmonic_magnitude_profile_type", "lfo_start_phase_randomness", "global_fine_detune_cents_x",
+              "punch_strength_and_velocity", "unison_vibrato_speed_hz", "keyboard_shift_octaves", "Pminimal_note_key_limit",
+              "noise_generator_colour_tilt", "envelope_free_mode_points_dt", "formant_vowel_sequence_pos", "b1t_crusher_resolution_bits"]
+LONG_KIDS = ["additive_synth_voice_params", "effects_insertion_chain_unit", "modulation_matrix_routing_tab",
+             "sub_oscillator_harmonic_bank", "global_amplitude_envelope_gen", "frequency_lfo_parameters_set",
+             "kit_item_layer_settings", "padsynth_sample_builder_cfg"]
 SYMS = ["lin", "log", "exp", "off", "saw", "sqr", "tri", "Part1", "m_2", "hi5"]
 STR_ALPHA = [c for c in b'abcXYZ 019"\n%\\\'/#:,[]-_.\t']
 
@@ -610,6 +621,7 @@ def gen_level(rng, T, app, opts):
         n = "n%dq" % len(names)
         names.append(n)
         return n
+    STEMS, KIDS = (LONG_STEMS, LONG_KIDS) if opts.get("long_names") else (globals()["STEMS"], globals()["KIDS"])
     fids = list(KIND_OF_FID)
     rng.shuffle(fids)
     nleaf = rng.choice([1, 2, 3, 3, 4, 5, 6]) if T > 0 else rng.choice([2, 3, 4, 5, 6, 8])
@@ -746,7 +758,10 @@ def gen_level(rng, T, app, opts):
                 p.eb_leaf = tg                                          # "enabled by" on a leaf (scan_deps reads it)
     lv.ports = list(leaves)
     # rSelf(..., rEnabledBy(x)): the table's own switch
-    if T > 0 and rng.random() < opts.get("p_self", 0.0):
+    # (on the ROOT table only when opts["p_self0"] asks for it: scan_deps reaches the root's "self:" from the
+    #  iteration of a root-level port, rel2abs("self:", "/x") = "/self:" - the walk never visits "" as a directory)
+    if (T > 0 and rng.random() < opts.get("p_self", 0.0)) or \
+       (T == 0 and opts.get("p_self0", 0.0) and rng.random() < opts["p_self0"]):
         # (a switch whose own default depended on a selector it disables would make the application
         #  ill formed: the selector is not saved while the switch is off - wf_app, notes/C12.md stage 4)
         togg = [p for p in leaves if p.kind == "t" and p.fid != lv.enabler and p.depends is None]
@@ -1128,6 +1143,37 @@ def ref_from_flat(flat):
     r.bypath = {fp.path: i for i, fp in enumerate(flat)}
     r.st = [r.initial(i) for i in range(len(flat))]
     return r
+
+def parse_meta(b):
+    """metadata block -> {key: value bytes | None}"""
+    out = {}
+    parts = b.split(b"\0")
+    k = 0
+    while k < len(parts) and parts[k].startswith(b":"):
+        key = parts[k][1:].decode("latin-1")
+        if k + 1 < len(parts) and parts[k + 1].startswith(b"="):
+            out[key] = parts[k + 1][1:]
+            k += 2
+        else:
+            out[key] = None
+            k += 1
+    return out
+
+def metas_of_tree(tree):
+    """{(level, port name in front of # / :): metadata dict} of the tree field of a case line"""
+    if tree.startswith("static@"):
+        tree = tree[7:]
+    out = {}
+    for t, lvl in enumerate(tree.split("|")):
+        for item in lvl.split(";"):
+            g = item.split(",")
+            if len(g) == 4 and g[0] == "p":
+                name = bytes.fromhex(g[2]).decode("latin-1") if g[2] != "-" else ""
+                stem = name.split("#")[0].split(":")[0].split("/")[0]
+                if name.endswith("/") or g[1] in ("subp", "self"):
+                    continue
+                out[(t, stem)] = parse_meta(bytes.fromhex(g[3]) if g[3] != "-" else b"")
+    return out
 
 def kv_fields(line):
     out = {}
